@@ -19,7 +19,7 @@ from ...numerical.cosmethod import COSPricer
 from ...process.coupling.couplingprocess import CouplingProcess
 from ...process.markovchain.markovchainlevycopula import MarkovChainLevyCopula
 from ...process.markovchain.markovchainsde import MarkovChainSDE
-from ...product.product import Product
+from ...product.product import NoControlVariates, Product
 
 
 def helper_create_fun(this_cos_pricer, maturity):
@@ -57,6 +57,11 @@ class Engine:
             self.configuration.initialisation_seed()
         maturity = product.maturity
         product.update(self.coupling_process.fine_process.process_representation)
+        if not isinstance(self.configuration.control_variates, NoControlVariates):
+            for cv_product in self.configuration.control_variates.products:
+                cv_product.update(
+                    self.coupling_process.fine_process.process_representation
+                )
         self.coupling_process.initialisation(product)
         self.configuration.initialisation(product)
         path_manager = create_path(
